@@ -77,9 +77,9 @@ mod __verif_c41 {
     // @bounds body of 3 symbolic bytes, split into 1 or 2 chunks at EVERY cut point 0..=3 (the cut is iterated concretely, the bytes are symbolic: CR, LF, digits, anything), no chunk extensions, terminating `0 CRLF CRLF`
     // @oracle dechunk(encode(body, cut)) == Some(body)
     // @out bodies longer than 3 bytes, more than 2 chunks, multi-digit chunk sizes other than the 16-digit case below
-    // @unwindset metastore::gravitino::dechunk:4
+    // @unwindset memcmp#0:4 __verif_c41::put#0:8 __verif_c41::same#0:4 gravitino::dechunk#0:4
     #[kani::proof]
-    #[kani::unwind(8)]
+    #[kani::unwind(2)]
     fn roundtrip_every_split_of_3_bytes() {
         roundtrip_case(0);
         roundtrip_case(1);
@@ -91,9 +91,9 @@ mod __verif_c41 {
     // @encodes metastore::gravitino::dechunk
     // @bounds one chunk of 2 symbolic bytes whose size line carries a chunk extension (`2;x`), then the terminating chunk
     // @oracle RFC 9112 7.1.1: a recipient MUST ignore unrecognised chunk extensions, so the body decodes
-    // @unwindset metastore::gravitino::dechunk:3
+    // @unwindset try_fold::#0:4 validations::run_utf8_validation#1:4 memcmp#0:4 __verif_c41::put#0:8 __verif_c41::same#0:4
     #[kani::proof]
-    #[kani::unwind(8)]
+    #[kani::unwind(2)]
     fn roundtrip_with_chunk_extension() {
         let body: [u8; 2] = kani::any();
         let mut buf = [0u8; W];
@@ -123,9 +123,9 @@ mod __verif_c41 {
     // @encodes metastore::gravitino::dechunk
     // @bounds one chunk of 12 bytes (concrete zero payload), size written as ONE hex digit in symbolic case (c / C)
     // @oracle hex sizes decode in either case: the body has the declared length
-    // @unwindset metastore::gravitino::dechunk:3 run_utf8_validation:3 is_whitespace:3 from_ascii_bytes_radix_impl:3 CharSearcher:3 memchr:4
+    // @unwindset memcmp#0:4 __verif_c41::put#0:16
     #[kani::proof]
-    #[kani::unwind(18)]
+    #[kani::unwind(2)]
     fn hex_size_in_either_case() {
         hex_case(12);
     }
@@ -134,9 +134,9 @@ mod __verif_c41 {
     // @encodes metastore::gravitino::dechunk
     // @bounds as hex_size_in_either_case for lengths 10 and 15 (a/A, f/F)
     // @oracle as hex_size_in_either_case
-    // @unwindset metastore::gravitino::dechunk:3 run_utf8_validation:3 is_whitespace:3 from_ascii_bytes_radix_impl:3 CharSearcher:3 memchr:4
+    // @unwindset memcmp#0:4 __verif_c41::put#0:16
     #[kani::proof]
-    #[kani::unwind(18)]
+    #[kani::unwind(2)]
     fn hex_sizes_other_digits() {
         hex_case(10);
         hex_case(15);
@@ -159,9 +159,9 @@ mod __verif_c41 {
     // @encodes metastore::gravitino::dechunk
     // @bounds declared size d in 1..=3 followed by FEWER than d + 2 bytes, every shortfall (all 9 (d, have) pairs iterated concretely, the bytes themselves symbolic): a body cut short anywhere inside the chunk or its CRLF
     // @oracle truncated chunk data is rejected (None), never returned as a shorter body
-    // @unwindset metastore::gravitino::dechunk:3
+    // @unwindset memcmp#0:4 __verif_c41::put#0:8
     #[kani::proof]
-    #[kani::unwind(8)]
+    #[kani::unwind(2)]
     fn truncated_chunk_is_rejected() {
         truncated_case(1, 0);
         truncated_case(1, 1);
@@ -178,9 +178,9 @@ mod __verif_c41 {
     // @encodes metastore::gravitino::dechunk
     // @bounds one chunk of 1 byte whose data is followed by two symbolic bytes that are NOT CRLF, then a well-formed terminating chunk
     // @oracle malformed framing (chunk data not terminated by CRLF) is rejected
-    // @unwindset metastore::gravitino::dechunk:3
+    // @unwindset memcmp#0:4 __verif_c41::put#0:8
     #[kani::proof]
-    #[kani::unwind(8)]
+    #[kani::unwind(2)]
     fn chunk_data_must_end_with_crlf() {
         let x: u8 = kani::any();
         let t: [u8; 2] = kani::any();
@@ -231,13 +231,13 @@ mod __verif_c41 {
         huge_case(2);
     }
 
-    // @harness tiers=experimental timeout=2400
+    // @harness tiers=thorough timeout=2400
     // @encodes metastore::gravitino::dechunk
     // @bounds size line = 17 symbolic hex digits with a non-zero leading digit (a size >= 2^64 that no usize can hold), CRLF, then `hello CRLF 0 CRLF CRLF`
     // @oracle a chunk size that does not fit in usize is malformed framing: rejected, never reduced modulo 2^64 (which would make 10000000000000005 decode as 5, or 10000000000000000 look like the terminator)
-    // @unwindset metastore::gravitino::dechunk:2 is_whitespace:3 CharSearcher:3
+    // @unwindset try_fold::#0:32 ::from_ascii_bytes_radix_impl#2:32 memcmp#0:4 __verif_c41::size_beyond_usize_is_rejected_not_wrapped#0:32 __verif_c41::size_beyond_usize_is_rejected_not_wrapped#1:16
     #[kani::proof]
-    #[kani::unwind(20)]
+    #[kani::unwind(2)]
     fn size_beyond_usize_is_rejected_not_wrapped() {
         let digits: [u8; 17] = kani::any();
         let mut buf = [0u8; 40];
